@@ -111,8 +111,16 @@ def make_body(scn):
                 res["rekey"] = "raised %s: %s" % (type(e).__name__, str(e)[:80])
 
         def usend():
+            # a user thread on the initiating side; user_send names the operation (True = send)
             try:
-                chi.send(b"user-data-during-kex")
+                if user_send in (True, "send"):
+                    chi.send(b"user-data-during-kex")
+                elif user_send == "shutdown_write":
+                    chi.shutdown_write()
+                elif user_send == "close":
+                    chi.close()
+                elif user_send == "send_stderr":
+                    chi.send_stderr(b"user-data-during-kex")
                 res["usend"] = "ok"
             except Exception as e:  # noqa
                 res["usend"] = "raised %s" % type(e).__name__
@@ -189,12 +197,16 @@ def make_body(scn):
                 eff[kind] = chi.exit_status == 7
             else:
                 eff[kind] = True
-        if user_send:
+        if user_send in (True, "send", "send_stderr"):
             chp.settimeout(0.0)
             try:
-                eff["user-send"] = chp.recv(100) == b"user-data-during-kex"
+                eff["user-send"] = (chp.recv if user_send != "send_stderr" else chp.recv_stderr)(100) == b"user-data-during-kex"
             except socket.timeout:
                 eff["user-send"] = False
+        elif user_send == "shutdown_write":
+            eff["user-shutdown_write"] = bool(chp.eof_received) and res.get("usend") == "ok"
+        elif user_send == "close":
+            eff["user-close"] = bool(chp.closed) and res.get("usend") == "ok"
         obs["effects"] = eff
         p.close()
         s.quiesce()
@@ -220,7 +232,10 @@ def judge(scn, obs):
     """List of (clause, site) problems."""
     initiator, msgs, user_send, keepalive = scn
     out = []
-    what = "+".join(msgs) if msgs else ("user-send" if user_send else "plain")
+    uname = "user-send" if user_send in (True, "send") else ("user-%s" % user_send if user_send else None)
+    what = "+".join(msgs) if msgs else (uname or "plain")
+    if msgs and user_send and user_send not in (True, "send"):
+        what += "+" + uname
     for side, tx in (("initiator", obs["tx_i"]), ("peer", obs["tx_p"])):
         for t in sorted(set(in_kex_violations(tx))):
             cause = [m for m in msgs if m in REPLY_OF and t in REPLY_OF[m]]
@@ -231,7 +246,7 @@ def judge(scn, obs):
     if obs["rekey"] != "ok" or not all(obs["active"]):
         # attribute to the in-flight message(s) that require a reply from the transport thread (one finding
         # per such kind, so that single- and multi-message scenarios share keys)
-        culprits = [m for m in msgs if m in REPLY_OF]
+        culprits = [m for m in msgs if m in REPLY_OF] if not (user_send and user_send not in (True, "send")) else []
         for m in (culprits or [what]):
             out.append(("re-exchange-fails-or-session-dies", m))
     else:
@@ -253,6 +268,14 @@ def scenarios(tier):
         for m in peer_msgs:
             out.append((ini, (m,), False, False))
         out.append((ini, ("data",), True, False))
+        # user-thread operations other than send, each against in-flight peer messages whose handlers need
+        # the channel lock or answer on the channel
+        for uop in ("shutdown_write", "close", "send_stderr"):
+            out.append((ini, (), uop, False))
+            for m in (("window-adjust", "eof", "data") if tier == "quick" else peer_msgs):
+                if m == "close" and uop == "close":
+                    continue
+                out.append((ini, (m,), uop, False))
         if tier != "quick":
             for i, a in enumerate(peer_msgs):
                 for b in peer_msgs[i + 1:]:
